@@ -20,8 +20,7 @@
    What is NOT proved here (checked only by the correspondence run and the
    judge, see docs/C06.md "missing"): the non-SAME <-> differ equivalence for
    configurations that mix modes per path ([rules]) or configure identity
-   keys ([keys]), and for --arrays value combined with --aoh key|deep;
-   truthfulness outside positional comparison. *)
+   keys ([keys]); truthfulness outside positional comparison. *)
 From Coq Require Import List Ascii String ZArith NArith Bool Arith Permutation.
 From YP Require Import Outcome PyStr PyVal Doc Diff C06Spec DiffBase DiffPos DiffTotal DiffSync DiffEq
   DiffKeys DiffCover DiffAcct DiffSym DiffKSync DiffIff DiffIffKey.
@@ -209,29 +208,30 @@ Theorem C06_equal_no_difference_partial :
 Proof. exact equal_no_difference. Qed.
 Print Assumptions C06_equal_no_difference_partial.
 
-(* ---- the identity-key modes: --arrays position with --aoh key | deep, no
-   [keys] configuration.  [equiv] reads every Array-of-Hashes as a bag of
-   records named by the identity key (the first key of the first right-hand
-   record): as many records, and every left record has a right record with the
-   same identity value that is equal (key) / equivalent (deep).  Guard
-   [kguard] (finding F4): every list pair the comparison reads by identity key
-   is well keyed -- all elements of both lists are records holding a scalar
-   under the identity key, pairwise different -- checked along the pairing the
-   modes define. ---- *)
+(* ---- EVERY uniform pair of options, the identity-key modes included:
+   --arrays position|value x --aoh position|dpos|value|key|deep, no [keys]
+   configuration.  Under --aoh key|deep [equiv] reads every Array-of-Hashes as
+   a bag of records named by the identity key (the first key of the first
+   right-hand record): as many records, and every left record has a right
+   record with the same identity value that is equal (key) / equivalent
+   (deep).  Guard [kguard] (finding F4): every list pair the comparison reads
+   by identity key is well keyed -- all elements of both lists are records
+   holding a scalar under the identity key, pairwise different -- checked along
+   the pairing the modes define (for position / dpos / value it only descends). ---- *)
 Theorem C06_nonsame_iff_differ_keyed_partial :
-  forall path_eq cfg hm L R es,
-    uniform cfg ArrPosition hm -> hm = AohKey \/ hm = AohDeep -> c_keys cfg = [] ->
+  forall path_eq cfg am hm L R es,
+    uniform cfg am hm -> c_keys cfg = [] ->
     wf_doc L = true -> wf_doc R = true -> untagged L = true -> untagged R = true ->
-    kguard hm L R = true ->
+    kguard am hm L R = true ->
     compare_to path_eq cfg L R = Ok es ->
-    shows_difference es = negb (equiv ArrPosition hm L R).
+    shows_difference es = negb (equiv am hm L R).
 Proof. exact nonsame_iff_differ_keyed. Qed.
 Print Assumptions C06_nonsame_iff_differ_keyed_partial.
 
 Theorem C06_reflexive_keyed_partial :
-  forall path_eq cfg hm L es,
-    uniform cfg ArrPosition hm -> hm = AohKey \/ hm = AohDeep -> c_keys cfg = [] ->
-    wf_doc L = true -> untagged L = true -> kguard hm L L = true ->
+  forall path_eq cfg am hm L es,
+    uniform cfg am hm -> c_keys cfg = [] ->
+    wf_doc L = true -> untagged L = true -> kguard am hm L L = true ->
     compare_to path_eq cfg L L = Ok es -> shows_difference es = false.
 Proof. exact reflexive_keyed. Qed.
 Print Assumptions C06_reflexive_keyed_partial.
@@ -411,9 +411,11 @@ Example C06_keyed_guard_example :
   let L := mp 0 [(lf 1 (PStr "r"), sq 10 [rcd 20%N 1%Z "w" [s1; s2]; rcd 30%N 2%Z "x" []])] in
   let R := mp 6 [(lf 1 (PStr "r"), sq 11 [rcd 40%N 2%Z "x" []; rcd 60%N 1%Z "w" [s2; s1]])] in
   wf_doc L = true /\ wf_doc R = true /\ untagged L = true /\ untagged R = true /\
-  kguard AohDeep L R = true /\ kguard AohKey L R = true /\
+  kguard ArrPosition AohDeep L R = true /\ kguard ArrPosition AohKey L R = true /\ kguard ArrValue AohDeep L R = true /\
   data_eq L R = false /\
   equiv ArrPosition AohDeep L R = true /\ equiv ArrPosition AohKey L R = false /\
   omap shows_difference (compare_to path_eq_real (cfg_of "position" "deep") L R) = Ok false /\
-  omap shows_difference (compare_to path_eq_real (cfg_of "position" "key") L R) = Ok true.
+  omap shows_difference (compare_to path_eq_real (cfg_of "position" "key") L R) = Ok true /\
+  equiv ArrValue AohDeep L R = true /\
+  omap shows_difference (compare_to path_eq_real (cfg_of "value" "deep") L R) = Ok false.
 Proof. vm_compute. repeat split; reflexivity. Qed.
